@@ -872,6 +872,17 @@ impl CodegenContext {
                                 // The segment is known from the previous pass and this pass has put something in it
                                 // already (the definition comes later in the source): that shouldn't get lost
                                 Some(existing) if existing.is_touched() => {
+                                    // (when it turns out to be somewhere else than where that was put, the next
+                                    // pass has to put it in the right place)
+                                    if existing.options().initial_pc != opts.initial_pc
+                                        || existing.options().target_address != opts.target_address
+                                    {
+                                        self.changed.insert(UndefinedSymbol {
+                                            scope_nx: self.symbols.root,
+                                            id: IdentifierPath::from("segments").join(&name).join("start"),
+                                            span: Some(id.span),
+                                        });
+                                    }
                                     *existing.options_mut() = opts;
                                 }
                                 _ => {
